@@ -1150,10 +1150,14 @@ def FIBER(
 
     A = input.signal
 
+    def power(A):  # instantaneous power, summed over the polarization axis (if there is one)
+        P = np.abs(A) ** 2
+        return P.sum(axis=0) if P.ndim == 2 else P
+
     h = (
         length
         if (beta_2 == 0 and beta_3 == 0) or gamma == 0
-        else phi_max / (gamma * (np.abs(A[0]) ** 2 + np.abs(A[1]) ** 2)).max()
+        else phi_max / (gamma * power(A)).max()
     )
 
     x_length = h
@@ -1172,7 +1176,7 @@ def FIBER(
             barra_progreso.update(100 * h / length)
 
         h = (
-            phi_max / (gamma * (np.abs(A[0]) ** 2 + np.abs(A[1]) ** 2)).max()
+            phi_max / (gamma * power(A)).max()
             if gamma != 0
             else length
         )
